@@ -228,6 +228,29 @@ static void m10(void) {
     VS_CHECK(aws_thread_join_all_managed() == AWS_OP_SUCCESS, "join-all-result", "join_all failed after a redundant aws_common_library_init");
     check_managed_all(1);
 }
+/* M11: many outstanding participants.  aws_thread_increment_unjoined_count / _decrement_ are the public way for other
+ * modules to take part in the managed count; with K of them outstanding next to one blocked managed thread the count is
+ * K + 1, a timed join-all reports failure instead of returning while they are outstanding, and after K decrements and the
+ * thread's end join-all reaches zero (added after a seeded change that narrowed the counter to 8 bits; K = 300 in the quick
+ * tier, 2000 in the thorough tier - every increment is a few schedule points and an execution records at most 8191) */
+static int m11_k = 300;
+static void m11(void) {
+    setup();
+    pthread_mutex_lock(&hm);
+    m_launch(0);
+    for (int i = 0; i < m11_k; ++i) aws_thread_increment_unjoined_count();
+    VS_CHECK(aws_thread_get_managed_thread_count() == (size_t)m11_k + 1, "managed-count", "one managed thread and %d external participants outstanding, managed thread count is %zu", m11_k,
+             aws_thread_get_managed_thread_count());
+    aws_thread_set_managed_join_timeout_ns(1000000);
+    VS_CHECK(aws_thread_join_all_managed() == AWS_OP_ERR, "join-all-early", "join_all with a timeout reported success while %d participants and a blocked managed thread were outstanding", m11_k);
+    aws_thread_set_managed_join_timeout_ns(0);
+    VS_CHECK(vs_threads_unfinished() == 1, "managed-not-finished", "the blocked managed thread is gone");
+    for (int i = 0; i < m11_k; ++i) aws_thread_decrement_unjoined_count();
+    VS_CHECK(aws_thread_get_managed_thread_count() == 1, "managed-count", "after %d decrements the managed thread count is %zu, expected 1", m11_k, aws_thread_get_managed_thread_count());
+    pthread_mutex_unlock(&hm);
+    VS_CHECK(aws_thread_join_all_managed() == AWS_OP_SUCCESS, "join-all-result", "join_all failed");
+    check_managed_all(1);
+}
 /* M7: two threads are inside join-all at the same time (an explicit call racing library clean-up): both must return */
 static void *m7_joiner(void *a) {
     (void)a;
@@ -366,6 +389,8 @@ int main(int argc, char **argv) {
     v_init(argc, argv);
     aws_common_library_init(aws_default_allocator());
     if (v_thorough()) j1_n = 3;
+    if (v_thorough()) m11_k = 2000;
+    if (getenv("C20_M11_K")) m11_k = atoi(getenv("C20_M11_K")); /* development aid only: ./check never sets it */
     vs_spin_clock_step_ns = 250000; /* M8: join-all with a timeout busy-waits on the clock while one thread is outstanding */
     struct vsx_scenario sc[] = {
         {.name = "M1-two-managed", .run = m1, .bound_quick = 3, .bound_thorough = 4},
@@ -378,6 +403,7 @@ int main(int argc, char **argv) {
         {.name = "M9-create-refused-while-join-all-waits", .run = m9, .bound_quick = 2, .bound_thorough = 3},
         {.name = "M7c-three-join-all-callers", .run = m7c, .bound_quick = 1, .bound_thorough = 2},
         {.name = "M10-redundant-library-init-while-thread-parked", .run = m10, .bound_quick = 2, .bound_thorough = 3},
+        {.name = "M11-many-outstanding-participants", .run = m11, .bound_quick = 1, .bound_thorough = 1, .horizon = 8000},
         {.name = "M7-two-join-all-callers", .run = m7, .bound_quick = 2, .bound_thorough = 3},
         {.name = "J1-joinable-at-exit", .run = j1, .bound_quick = 3, .bound_thorough = 5},
         {.name = "J3-refused-self-join-then-join", .run = j3, .bound_quick = 3, .bound_thorough = 5},
